@@ -11,6 +11,18 @@ class InjectedFailure(RuntimeError):
     pass
 
 
+def failure_classes():
+    """Exception classes a matrix routine may throw (the property speaks of 'throws', whatever the class)."""
+    return [InjectedFailure, ValueError, ArithmeticError, AssertionError, NotImplementedError, torch.linalg.LinAlgError,
+            ZeroDivisionError, FloatingPointError, IndexError, Exception]
+
+
+def raise_failure(out: str):
+    """out = "fail" or "fail:<index into failure_classes()>" """
+    cls = failure_classes()[int(out.split(":")[1]) % len(failure_classes())] if ":" in out else InjectedFailure
+    raise cls("injected failure")
+
+
 class Script:
     def __init__(self):
         self.queue: list[str] = []   # outcomes for the upcoming calls, in order
@@ -60,8 +72,8 @@ def patched_keyed(decide, natural=None):
             A = kw.get("A", a[0] if a else None)
             est = kw.get("eigenvectors_estimate")
             out = decide(name, A, est)
-            if out == "fail":
-                raise InjectedFailure("injected failure")
+            if out.startswith("fail"):
+                raise_failure(out)
             if out == "nan":
                 return torch.full_like(A, float("nan"))
             res = real(*a, **kw)
